@@ -5,6 +5,18 @@ HERE = os.path.dirname(os.path.dirname(os.path.abspath(__file__)))
 ALL = ["C%02d" % i for i in range(1, 21)]
 
 CHECKS = {
+ "C12": dict(
+   level="exploration",
+   technique="paired execution with a positive control on reachable states (real signed txs): non-owner and forged-sender attempts must fail with an identical full-state dump, then the owner succeeds on the same state; reflection over the custom contract message union x chain id x sender",
+   text="For vault (deposit/withdraw/draw/repay/deposit-and-draw/close), locker (deposit/withdraw/close), limit-bid (withdraw/cancel) positions reached by the mixed workload, 3 non-owners attempt each message both as themselves and with the owner forged as sender; every attempt must return a non-zero code and leave the hash of every store (except the two the ante handler writes: account sequences, wasm tx counter) unchanged; then the owner's identical message must succeed (123 live controls per quick run). Kill switch: non-admin vs admin. Custom messages: all 20 variants (enumerated by reflection) dispatched through the real CustomMessenger on chain ids comdex-1 and comdex-test3 from random senders and the other network's contracts (must be rejected, no state change) and from the designated contracts (must pass the sender guard).",
+   note="The designated contract addresses are the ones configured in app/wasm/message_plugin.go at this commit (hard-coded in the harness as the specification). Liquidity (orders, farms) and lend positions are covered through c12Extra when their fixtures are linked in.",
+   design="§4 C12"),
+ "C14": dict(
+   level="exploration",
+   technique="paired execution with positive control per matrix cell: control ON -> real tx must fail with identical state dump, control OFF -> same message succeeds; shutdown cells and price-dependence detection via the message router on spy-decorated forks; sweep cells over two consecutive real blocks",
+   text="Cells: {vault create/deposit/withdraw/draw/deposit-and-draw/repay/close, stable-mint create/deposit, locker create/deposit} x breaker on/off per app (toggled by the real admin kill-switch message); operations whose handler reads an asset's price record (detected by the spy multistore on a fork) x that price inactive/active, incl. liquidate messages of both generations; block with breaker on seizes nothing and opens no auction for the app while the next block with breaker off does; emergency shutdown executed (within / after cool-off) -> draw, deposit-and-draw, create, stable-mint deposit must fail without state change and withdraw must fail after cool-off, decided on forks of the same state.",
+   note="Shutdown status is set on the fork through the esm keeper (there is no message that un-executes a shutdown, so on/off cannot be toggled on the real state). Lend cells are added through the lend fixture when linked in.",
+   design="§4 C14"),
  "C15": dict(
    level="fault_enumeration",
    technique="fault injection by a harness-side spy multistore: for sampled blocks every (wrapped step, k-th KV operation) crash point of the begin/end block hooks is injected on forks of the committed state; plus environment-fault episodes and an always-on panic-escape monitor on real ABCI blocks",
